@@ -179,7 +179,26 @@ pub struct Real {
     pub hdrs: Vec<Option<(EncryptedHeader, Secret<32>)>>,
     /// encapsulation handles whose tampered bytes no longer deserialise
     pub dead: std::collections::HashSet<usize>,
+    /// when set by a step: the line the *model* must be given instead of the abstract one
+    /// (some lines only become concrete — e.g. carry key bytes — once executed)
+    pub model_line: Option<String>,
     pub nm: Names,
+}
+
+/// the byte stream `sign` feeds KMAC, recomputed independently from the serialised key
+pub fn mac_stream(w: &WUsk) -> Vec<u8> {
+    let mut out = vec![];
+    for m in &w.id {
+        out.extend_from_slice(m);
+    }
+    for (r, chain) in &w.secrets {
+        out.extend_from_slice(r);
+        for k in chain {
+            out.extend_from_slice(&k.a);
+            out.extend_from_slice(&k.b);
+        }
+    }
+    out
 }
 
 /// `x<hex>` = bytes, `-` = absent
@@ -248,7 +267,7 @@ pub fn clone_msk(m: &MasterSecretKey) -> MasterSecretKey {
 
 impl Real {
     pub fn new() -> Self {
-        Self { cc: Covercrypt::default(), msks: vec![], mpks: vec![], usks: vec![], encs: vec![], pkes: vec![], hdrs: vec![], dead: Default::default(), nm: Names::default() }
+        Self { cc: Covercrypt::default(), msks: vec![], mpks: vec![], usks: vec![], encs: vec![], pkes: vec![], hdrs: vec![], dead: Default::default(), model_line: None, nm: Names::default() }
     }
 
     fn reset(&mut self) {
@@ -532,6 +551,94 @@ impl Real {
                         format!("ok {}", v.join(","))
                     }
                 }
+            }
+            ["c08", us, op, rest @ ..] => {
+                // tamper with the serialised form of an issued user key, then ask the real `refresh_usk`
+                // (on copies of the master key, with both flags) whether it accepts the result
+                let Some(i) = handle('U', us) else { return "bad-op".into() };
+                let Some(Some(u)) = self.usks.get(i) else { return "err NoSuchHandle".into() };
+                let Some(Some(m)) = self.msks.first() else { return "err NoSuchHandle".into() };
+                let issued = u.serialize().unwrap().to_vec();
+                let mut w = WUsk::read(&issued).expect("harness cannot parse USK bytes");
+                let num = |k: usize| -> Option<usize> { rest.get(k).and_then(|s| s.parse::<usize>().ok()) };
+                let other = |k: &str| -> Option<WUsk> {
+                    let k = handle('U', k)?;
+                    let y = self.usks.get(k)?.as_ref()?;
+                    WUsk::read(&y.serialize().ok()?).ok()
+                };
+                let n = w.secrets.len();
+                let ok: bool = match *op {
+                    "none" => true,
+                    "swap_chains" => num(0).zip(num(1)).map(|(a, b)| { if a < n && b < n && a != b { w.secrets.swap(a, b); true } else { false } }).unwrap_or(false),
+                    "drop_chain" => num(0).map(|a| { if a < n { w.secrets.remove(a); true } else { false } }).unwrap_or(false),
+                    "dup_chain" => num(0).map(|a| { if a < n { let c = w.secrets[a].clone(); w.secrets.push(c); true } else { false } }).unwrap_or(false),
+                    "rename_right" => num(0).zip(rest.get(1).and_then(|h| unhex(h))).map(|(a, nm)| { if a < n && w.secrets[a].0 != nm { w.secrets[a].0 = nm; true } else { false } }).unwrap_or(false),
+                    "move_secret" => num(0).zip(num(1)).map(|(a, b)| {
+                        // move the oldest secret of chain a to the end of chain b
+                        if a < n && b < n && a != b && w.secrets[a].1.len() >= 1 { let k = w.secrets[a].1.pop().unwrap(); w.secrets[b].1.push(k); if w.secrets[a].1.is_empty() { w.secrets.remove(a); } true } else { false }
+                    }).unwrap_or(false),
+                    "swap_secrets" => num(0).map(|a| { if a < n && w.secrets[a].1.len() >= 2 { w.secrets[a].1.swap(0, 1); true } else { false } }).unwrap_or(false),
+                    "drop_secret" => num(0).map(|a| { if a < n && w.secrets[a].1.len() >= 2 { w.secrets[a].1.pop(); true } else { false } }).unwrap_or(false),
+                    "shift_bytes" => num(0).zip(num(1)).map(|(a, k)| {
+                        // move k bytes from the front of the first secret into the end of the right's name
+                        if a < n && k >= 1 && k < 32 { let (r, c) = &mut w.secrets[a]; let moved: Vec<u8> = c[0].a.drain(..k).collect(); r.extend_from_slice(&moved); c[0].a.extend(std::iter::repeat(0).take(k)); true } else { false }
+                    }).unwrap_or(false),
+                    "merge_into_name" => num(0).map(|a| {
+                        // D9: right a+1 and all that precedes its last secret become part of the *name* of right a
+                        if a + 1 < n { let (r2, c2) = w.secrets.remove(a + 1); let (r1, mut c1) = w.secrets.remove(a); let mut name = r1; let last = c1.pop().unwrap(); for k in c1 { name.extend_from_slice(&k.a); name.extend_from_slice(&k.b); } name.extend_from_slice(&last.a); name.extend_from_slice(&last.b); name.extend_from_slice(&r2); w.secrets.insert(a, (name, c2)); true } else { false }
+                    }).unwrap_or(false),
+                    "merge_broadcast" => {
+                        // D9: the chain of the right with the empty name joins the chain that precedes it
+                        match w.secrets.iter().position(|(r, _)| r.is_empty()) { Some(p) if p >= 1 => { let (_, c) = w.secrets.remove(p); w.secrets[p - 1].1.extend(c); true } _ => false }
+                    }
+                    "reflavour" => num(0).map(|a| { if a < n && w.secrets[a].1[0].hyb == 1 { w.secrets[a].1[0].hyb = 0; w.secrets[a].1[0].b.clear(); true } else { false } }).unwrap_or(false),
+                    "strip_sig" => { if w.signature.is_some() { w.signature = None; true } else { false } }
+                    "flip_sig" => num(0).map(|k| { if let Some(s) = w.signature.as_mut() { s[k % 32] ^= 1; true } else { false } }).unwrap_or(false),
+                    "flip_id" => num(0).map(|k| { if !w.id.is_empty() { w.id[0][k % 31] ^= 1; true } else { false } }).unwrap_or(false),
+                    "swap_id" => { if w.id.len() >= 2 { w.id.swap(0, 1); true } else { false } }
+                    "splice_chain" => rest.first().and_then(|k| other(k)).zip(num(1)).map(|(o, a)| { if a < n && a < o.secrets.len() && o.secrets[a] != w.secrets[a] { w.secrets[a] = o.secrets[a].clone(); true } else { false } }).unwrap_or(false),
+                    "splice_sig" => rest.first().and_then(|k| other(k)).map(|o| { if o.signature != w.signature { w.signature = o.signature.clone(); true } else { false } }).unwrap_or(false),
+                    "splice_id" => rest.first().and_then(|k| other(k)).map(|o| { if o.id != w.id { w.id = o.id.clone(); true } else { false } }).unwrap_or(false),
+                    "foreign" => {
+                        // a key issued by another master key for the same policy shape
+                        let cc2 = Covercrypt::default();
+                        let mut m2 = clone_msk(m);
+                        // different authority: fresh setup with the same structure
+                        let (mut m3, _) = cc2.setup().unwrap();
+                        m3.access_structure = m2.access_structure.clone();
+                        let _ = cc2.update_msk(&mut m3);
+                        let _ = &mut m2;
+                        match cc2.generate_user_secret_key(&mut m3, &AccessPolicy::Broadcast) { Ok(k) => { w = WUsk::read(&k.serialize().unwrap()).unwrap(); true } Err(_) => false }
+                    }
+                    _ => false,
+                };
+                if !ok {
+                    // the operator does not apply to this key: nothing to check
+                    self.model_line = Some("noop".into());
+                    return "bad-op".into();
+                }
+                let tampered = w.write();
+                self.model_line = Some(format!("mac {} x{} x{}", crate::util::CFG, hex(&issued), hex(&tampered)));
+                let same_stream = mac_stream(&w) == mac_stream(&WUsk::read(&issued).unwrap());
+                let mut acc = false;
+                let mut unch = true;
+                if let Ok(t) = UserSecretKey::deserialize(&tampered) {
+                    for keep in [true, false] {
+                        let mut m2 = clone_msk(m);
+                        let mut t2 = t.clone();
+                        let before_m = m2.serialize().unwrap().to_vec();
+                        let before_u = t2.serialize().unwrap().to_vec();
+                        match self.cc.refresh_usk(&mut m2, &mut t2, keep) {
+                            Ok(()) => acc = true,
+                            Err(_) => {
+                                if m2.serialize().unwrap().to_vec() != before_m || t2.serialize().unwrap().to_vec() != before_u {
+                                    unch = false;
+                                }
+                            }
+                        }
+                    }
+                }
+                format!("ok acc={} unch={} same_stream={}", acc as u8, unch as u8, same_stream as u8)
             }
             ["tamper_enc", es, ed, op, rest @ ..] => {
                 // structural / byte-level tampering of a serialised encapsulation; the result keeps the
